@@ -538,8 +538,49 @@ def gen_index(g, update=False):
         usub.insert(rng.randint(0, len(usub)), fresh[0])
     udims = g.arrange(usub, units=0.05, flat=0.15)
     uarr = int_data(rng, shape_of(udims), 1, 9, ramp=(op == "set_at"))
-    c = Call("update_at", op, [tdims] + coords + [udims], [[d.copy() for d in tdims]], [tarr] + data + [uarr])
+    odims = [d.copy() for d in tdims]
+    perm = None
+    if len(odims) >= 2 and rng.random() < 0.25:
+        # the output expression may list the target's dimensions in another order
+        # (dimensions holding a bracketed axis keep their relative order: a stated rule of the operation)
+        held = [k for k, d in enumerate(odims) if any(l.marked for l in d.leaves())]
+        free = [k for k in range(len(odims)) if k not in held]
+        rng.shuffle(free)
+        slots = sorted(rng.sample(range(len(odims)), len(held)))
+        perm, hi, fi = [], 0, 0
+        for pos in range(len(odims)):
+            if pos in slots:
+                perm.append(held[hi])
+                hi += 1
+            else:
+                perm.append(free[fi])
+                fi += 1
+        odims = [odims[k] for k in perm]
+    c = Call("update_at", op, [tdims] + coords + [udims], [odims], [tarr] + data + [uarr])
+    c.out_perm = perm
     return c
+
+
+def gen_diag_perm(g):
+    """a repeated un-bracketed axis (diagonal) at any position followed by a free reordering of three or more remaining
+    axes - the shape in which a transpose left by the diagonal meets the layout transpose (distinct lengths throughout)"""
+    rng = g.rng
+    sizes = rng.sample([2, 3, 4, 5, 6], rng.randint(3, 4))
+    names = g.perm(NAMES)[: len(sizes)]
+    axes = [Ax(nm, s) for nm, s in zip(names, sizes)]
+    in_axes = [a.copy() for a in g.perm(axes)]
+    rep = rng.choice(axes)
+    for _ in range(rng.choice([1, 1, 2])):
+        in_axes.insert(rng.randint(0, len(in_axes)), rep.copy())
+    out_axes = [a.copy() for a in g.perm(axes)]
+    if rng.random() < 0.5:
+        ins = [in_axes]
+        outs = [out_axes]
+        return Call("id", "id", ins, outs, [int_data(rng, shape_of(in_axes))])
+    other = [a.copy() for a in g.perm(axes)][: rng.randint(1, len(axes))]
+    ins = [in_axes, other]
+    op = rng.choice(["add", "multiply", "subtract", "maximum"])
+    return Call("elementwise", op, ins, [out_axes], [int_data(rng, shape_of(t)) for t in ins])
 
 
 FAMILIES = {
@@ -553,7 +594,9 @@ def gen_call(rng, family=None):
     if family is None:
         family = rng.choice(["id", "id", "elementwise", "elementwise", "reduce", "reduce", "dot", "preserve", "argfind", "get_at", "update_at"])
     for _ in range(50):
-        c = FAMILIES[family](g)
+        c = gen_diag_perm(g) if (family in ("id", "elementwise") and rng.random() < 0.12) else FAMILIES[family](g)
+        if c.family != family:
+            continue
         if all(int(np.prod(shape_of(t))) <= 4096 for t in c.ins + c.outs):
             c.describe(rng)
             return c
@@ -729,13 +772,22 @@ def evaluate(c, plan):
         upd = flats[-1]
         tp = ints([r[0] for r in plan])
         up = ints([r[1] for r in plan])
+        tshape = shape_of(c.ins[0])
+        perm = getattr(c, "out_perm", None)
         if c.op in ("add_at", "subtract_at"):
-            return [ints(result).reshape(oshapes[0])]
+            r = ints(result).reshape(tshape)
+            return [np.transpose(r, perm) if perm is not None else r]
         # set_at: every addressed element holds one of the competing values
         cands = {}
         for t, u in zip(tp.tolist(), up.tolist()):
             cands.setdefault(t, set()).add(int(upd[u]))
-        return [("set", tgt.reshape(oshapes[0]), cands)]
+        base = tgt.reshape(tshape)
+        if perm is not None:
+            # re-index the target's flat positions by where the output expression puts them
+            where = np.transpose(np.arange(base.size).reshape(tshape), perm).reshape(-1)
+            cands = {j: cands[int(t)] for j, t in enumerate(where.tolist()) if int(t) in cands}
+            base = np.transpose(base, perm)
+        return [("set", base, cands)]
     raise ValueError(f)
 
 
